@@ -489,12 +489,28 @@ pub struct Table {
 
 impl Table {
     pub fn new() -> Table {
+        Table::build(false)
+    }
+    /// The reference of Part 3b: as `new`, plus the recorded SQLite deviation (finding
+    /// `sqlite:create:id=live->ok`): `create` on a live id may return `Ok` without any effect.
+    pub fn new_sqlite_stmt() -> Table {
+        Table::build(true)
+    }
+    fn build(create_on_live_may_be_a_silent_noop: bool) -> Table {
         let ops = alphabet();
         let mut cells = Vec::with_capacity(ops.len() * NMSTATES);
         for op in &ops {
             for si in 0..NMSTATES {
                 let s = ms_from_index(si);
-                let mut c: Vec<(u8, u32)> = spec(*op, &s).into_iter().map(|(o, n)| (o, ms_bit(&n))).collect();
+                let mut sp = spec(*op, &s);
+                if create_on_live_may_be_a_silent_noop {
+                    if let Op::Create { id, .. } = op {
+                        if is_live(s[*id as usize]) {
+                            sp.push((OC_OK, s));
+                        }
+                    }
+                }
+                let mut c: Vec<(u8, u32)> = sp.into_iter().map(|(o, n)| (o, ms_bit(&n))).collect();
                 c.sort();
                 c.dedup();
                 cells.push(c);
